@@ -203,6 +203,20 @@ def c06_kernels(isa):
         out += [["str q1, [x1]", "ld1 {v0.4s}, [x1], x2", "ldr q3, [x1]"], ["str q1, [x1]", "ld1 {v0.4s}, [x1], x2"]]
         out += [["str x7, [sp, #-16]!", "ldr x8, [sp], #16"], ["stp x7, x9, [sp, #-16]!", "add x2, x2, #1", "ldp x8, x10, [sp], #16"]]
         out += [["str x7, [x1, #8]", "ldr x8, [x1, #8]", "ldr x9, [x1, #8]", "ldr x10, [x1, #8]"], ["str x7, [x1], #8", "ldr x8, [x1, #-8]"], ["str x7, [x1, #8]!", "ldr x8, [x1]"], ["str x7, [x1], #8", "ldr x8, [x1]"]]
+    # writes through ANOTHER VIEW of a register (ecx for rcx, w4 for x4) in combination with copies: a fresh full copy makes the
+    # copy known again; a source that was overwritten through another view before it is copied is not the store's base any more;
+    # a copy taken before the origin is overwritten stays valid; a constant bump does not repair an unknown value
+    if isa == "x86":
+        st, ld = "movq %rsi, (%rbx)", "movq (%rcx), %rdx"
+        out += [[st, "movl $0, %ecx", "movq %rbx, %rcx", ld], [st, "movl $0, %ebx", "movq %rbx, %rcx", ld], [st, "movq %rbx, %rcx", "movl $0, %ebx", ld],
+                [st, "movq %rbx, %rcx", "movl $0, %ecx", ld], [st, "movl $0, %ebx", "addq $8, %rbx", "movq 8(%rbx), %rdx", "movq (%rbx), %rdi"],
+                [st, "movl $0, %ecx", "movq %rbx, %rcx", "addq $8, %rcx", "movq -8(%rcx), %rdx"], [st, "movl $0, %ebx", "movq %rbx, %rcx", "movq %rcx, %rdx", "movq (%rdx), %rdi"],
+                [st, "movw $0, %cx", "movq %rbx, %rcx", ld], [st, "movl $0, %ecx", "movq %rbx, %rcx", "movl $0, %ecx", ld]]
+    else:
+        st, ld = "str x1, [x2]", "ldr x3, [x4]"
+        out += [[st, "mov w4, #0", "mov x4, x2", ld], [st, "mov w2, #0", "mov x4, x2", ld], [st, "mov x4, x2", "mov w2, #0", ld], [st, "mov x4, x2", "mov w4, #0", ld],
+                [st, "mov w2, #0", "add x2, x2, #8", "ldr x3, [x2, #-8]", "ldr x5, [x2]"], [st, "mov w4, #0", "add x4, x2, #8", "ldr x3, [x4, #-8]"],
+                [st, "mov w2, #0", "mov x4, x2", "mov x5, x4", "ldr x3, [x5]"], [st, "mov w4, #0", "mov x4, x2", "mov w4, #0", ld]]
     if isa == "x86":
         for d in (-8, 0, 8):
             out.append(["movq %rsi, 8(%rax)", "imulq %rcx, %rdx", "movq %rax, %rdx", f"movq {d + 8}(%rdx), %rdi"])
